@@ -354,6 +354,16 @@ def shard(s):
             for c in ("\u2003", "\u3000", "\u2028", "\x85", "\xa0", "\u200b", "\u200d", "\u2020", "\u0141", "\u0120", "\ufeff"):
                 yield {"kind": "string", "s": w[:700] + c + w[700:]}
                 yield {"kind": "string", "s": c + w}
+            # raw lengths around 1024 / 2048 / 4096 characters (slice- or buffer-wise processing), whitespace or a foreign character
+            # inside, every kind of last character
+            for L_ in (1023, 1024, 1025, 1026, 2047, 2048, 2049, 2050, 4097):
+                w = (base * (L_ // len(base) + 1))[:L_]
+                yield {"kind": "string", "s": w}
+                yield {"kind": "string", "s": w[:500] + " " + w[501:]}                   # one blank inside, raw length L_
+                yield {"kind": "string", "s": w[:500] + "\n" + w[501:L_ - 1] + "\n"}    # ends with a newline
+                yield {"kind": "string", "s": w[:500] + " " + w[501:L_ - 1] + "X"}        # ends with a foreign letter
+                yield {"kind": "string", "s": w[:500] + "\t" + w[501:L_ - 1] + "1"}      # ends with a digit
+                yield {"kind": "string", "s": " " + w[1:]}                                # starts with a blank
             for n in (49, 50, 51, 64):
                 w = (base * 4)[:n]
                 yield {"kind": "string", "s": w[:n - 1] + "0"}
@@ -409,7 +419,7 @@ def run(tier, seed, t0):
         PROP, tier, seed, acc, t0,
         rule="every string of length 0..%d over a 17-symbol alphabet (upper/lower residues, space, tab, newline, U+00A0, U+001C, "
              "B, 1, *, -, e-acute, NUL, dotless i, sharp s, >), every code point U+0000..U+%04X inserted at every position of 3 host "
-             "sequences, long strings (49..3000 characters; up to 500 separate whitespace stretches; 2100-character strings with one foreign character from outside Latin-1 at three positions) in valid, mixed and invalid forms (foreign +, -, 0, * at three positions, all blank), and %d non-string arguments (incl. objects whose str() is a valid word: nan, inf, Decimal, paths, exceptions, UserString); every rejected string is submitted three times and must stay rejected; 40 strings constructed while the working directory holds files and directories named like them (words such as MISC, DATA, K and non-words such as seq.fasta); oracle from the statement: with n = upper-cased input minus whitespace, "
+             "sequences, long strings (49..4097 characters, raw lengths 1023..1026 / 2047..2050 / 4097 with a blank, newline, foreign letter or digit inside or at the end; up to 500 separate whitespace stretches; 2100-character strings with one foreign character from outside Latin-1 at three positions) in valid, mixed and invalid forms (foreign +, -, 0, * at three positions, all blank), and %d non-string arguments (incl. objects whose str() is a valid word: nan, inf, Decimal, paths, exceptions, UserString); every rejected string is submitted three times and must stay rejected; 40 strings constructed while the working directory holds files and directories named like them (words such as MISC, DATA, K and non-words such as seq.fasta); oracle from the statement: with n = upper-cased input minus whitespace, "
              "construction succeeds iff n is a non-empty word over the 20 letters, then sequence/length/len equal n and a 32-entry "
              "read-only API vector equals that of SequenceParameters(n) (also when the same mixed-case residues are handed over as a backend "
              "Sequence / SequencePermutants); otherwise an exception; in a freshly imported package six sequence files are parsed before "
